@@ -10,6 +10,6 @@ fuzz_target!(|data: &[u8]| {
     if ops.is_empty() {
         return;
     }
-    let c = ProgCase { focus: "fuzz".to_string(), ops };
+    let c = ProgCase { focus: "fuzz".to_string(), ops, scale: 0 };
     vcheck::engine::fuzz::run_case("C15", "program/fuzz", &c, check_program);
 });
